@@ -6,7 +6,7 @@
 From Coq Require Import ZArith List. Import ListNotations.
 From TV Require Import spec.Storage spec.PyLib model.TensorBuild model.TensorBuildPy proofs.TensorBuildLemmas
   proofs.TensorBuildTop proofs.GenTensorBuild_tree proofs.GenTensorBuild_emit proofs.GenTensorBuild_build
-  proofs.GenTensorBuild_items proofs.GenTensorBuild_validate proofs.GenTensorBuild_equiv.
+  proofs.GenTensorBuild_items proofs.GenTensorBuild_validate proofs.GenTensorBuild_state proofs.GenTensorBuild_equiv.
 From TV Require gen.TensorBuildGen.
 Module G := TensorBuildGen.
 Open Scope Z_scope.
@@ -160,3 +160,68 @@ Theorem TIE_tensorbuild_from_lol : forall fmt dims x fuel,
   = match from_lol fmt dims x with Ok t => Val (stored t) | Err _ => Exc end.
 Proof. exact gen_from_lol_equiv. Qed.
 Print Assumptions TIE_tensorbuild_from_lol.
+
+(** The read-side accessors on the stored lists of a well-formed tensor [t] (C arrays read as list
+    slices that must stay inside the array): Tensor.taco_indices re-reads exactly the levels of [t]
+    (threading nnz: [nnz *= dimension] under a dense level, [len(crd)] under a compressed one) and
+    Tensor.taco_vals exactly the values. *)
+Theorem TIE_tensorbuild_taco_indices : forall strict (t : tensor Z), wf_tensorb strict t = true ->
+  G.taco_indices Z 0 Z.add Z.eqb (Z.of_nat (length (ordering t))) (Storage.dims t) (map gmode (levels t))
+    (map Z.of_nat (ordering t)) (indices_of (levels t))
+  = Val (indices_of (levels t)).
+Proof. exact gen_taco_indices_equiv. Qed.
+Print Assumptions TIE_tensorbuild_taco_indices.
+
+Theorem TIE_tensorbuild_taco_vals : forall t : tensor Z, wf_tensorb true t = true ->
+  G.taco_vals Z 0 Z.add Z.eqb (Z.of_nat (length (ordering t))) (Storage.dims t) (map gmode (levels t))
+    (map Z.of_nat (ordering t)) (indices_of (levels t)) (vals t)
+  = Val (vals t).
+Proof. exact gen_taco_vals_equiv. Qed.
+Print Assumptions TIE_tensorbuild_taco_vals.
+
+(** Pickling.  [state_of t] = the dict of __getstate__ (dimensions, mode_types, mode_ordering, indices,
+    vals, in this order); __setstate__ is taco_structure_to_cffi on it.  C09_pickle_preserves restated on
+    the regenerated functions: the round trip re-creates exactly the stored lists. *)
+Theorem TIE_tensorbuild_getstate : forall t : tensor Z, wf_tensorb true t = true ->
+  G.__getstate__ Z 0 Z.add Z.eqb (Z.of_nat (length (ordering t))) (map gmode (levels t)) (Storage.dims t)
+    (map Z.of_nat (ordering t)) (indices_of (levels t)) (vals t)
+  = Val (state_of t).
+Proof. exact gen_getstate_equiv. Qed.
+Print Assumptions TIE_tensorbuild_getstate.
+
+Theorem TIE_tensorbuild_setstate : forall t : tensor Z,
+  G.__setstate__ Z 0 Z.add Z.eqb (state_of t) = if validate t then Val (stored t) else Exc.
+Proof. exact gen_setstate_equiv. Qed.
+Print Assumptions TIE_tensorbuild_setstate.
+
+Theorem TIE_tensorbuild_pickle_roundtrip : forall t : tensor Z, wf_tensorb true t = true ->
+  rbind (G.__getstate__ Z 0 Z.add Z.eqb (Z.of_nat (length (ordering t))) (map gmode (levels t)) (Storage.dims t)
+           (map Z.of_nat (ordering t)) (indices_of (levels t)) (vals t))
+        (G.__setstate__ Z 0 Z.add Z.eqb)
+  = Val (stored t).
+Proof. exact gen_pickle_roundtrip_equiv. Qed.
+Print Assumptions TIE_tensorbuild_pickle_roundtrip.
+
+(** to_format = from_dok(self.to_dok(), dimensions=self.dimensions, format): the model's to_format_spec
+    on every well-formed tensor, and C09_to_format_preserves_any_wf on the regenerated function. *)
+Theorem TIE_tensorbuild_to_format : forall strict (t : tensor Z) fmt' fuel,
+  wf_tensorb strict t = true -> valid_formatb fmt' = true ->
+  (length (levels t) < fuel)%nat -> (length (fmodes fmt') <= fuel)%nat ->
+  G.to_format Z 0 Z.add Z.eqb fuel (Z.of_nat (length (ordering t))) (map gmode (levels t)) (Storage.dims t)
+    (map Z.of_nat (ordering t)) (indices_of (levels t)) (vals t) (gfmt fmt')
+  = match to_format_spec fmt' t with Ok t' => Val (stored t') | Err _ => Exc end.
+Proof. exact gen_to_format_equiv. Qed.
+Print Assumptions TIE_tensorbuild_to_format.
+
+Theorem TIE_tensorbuild_to_format_preserves : forall strict (t : tensor Z) fmt' fuel,
+  wf_tensorb strict t = true -> valid_formatb fmt' = true ->
+  length (fordering fmt') = length (Storage.dims t) ->
+  (length (levels t) < fuel)%nat -> (length (fmodes fmt') <= fuel)%nat ->
+  exists t',
+    G.to_format Z 0 Z.add Z.eqb fuel (Z.of_nat (length (ordering t))) (map gmode (levels t)) (Storage.dims t)
+      (map Z.of_nat (ordering t)) (indices_of (levels t)) (vals t) (gfmt fmt') = Val (stored t')
+    /\ (forall c v, In (c, v) (to_dok_spec t') <-> In (c, v) (to_dok_spec t))
+    /\ NoDup (map fst (to_dok_spec t'))
+    /\ format_of t' = fmt' /\ Storage.dims t' = Storage.dims t /\ wf_tensorb true t' = true.
+Proof. exact gen_to_format_preserves. Qed.
+Print Assumptions TIE_tensorbuild_to_format_preserves.
